@@ -37,7 +37,7 @@ def run(rep):
 
         def gen():
             res["rc"], res["out"] = verif.sh(["python3", os.path.join(verif.ROOT, "checks", "gen_type_cases.py"), str(rep.seed), str(count), "--run",
-                                              "--max-report", "10", "--extras", rep.tier, "--script-dump", dump], timeout=3000)
+                                              "--max-report", "10", "--extras", rep.tier, "--script-dump", dump, "--types-out", dump + ".types"], timeout=3000)
         th = threading.Thread(target=gen)
         th.start()
         # meanwhile: the theorems are stated over the lexer's tokens of T ("written with any spacing"; string arguments are the
@@ -73,6 +73,15 @@ def run(rep):
                            "script_types_hex": prefix if len(blob) <= 4000000 else prefix[-2000:],
                            "how": "typedump -script on script_types_hex (one hex type per line): the LAST line differs from typedump on that type alone"},
                           input_hex=type_of(l))
+        # the type line must not depend on WHAT is cast: the same types behind operands of other kinds (unfoldable and foldable
+        # array / tuple literals, strings, numbers, calls, nested casts ...), in both cast positions -- the last line of the
+        # EXPLAIN text (the CAST node's last child) is compared with the one the plain identifier operand gets
+        opres = operand_pass(rep, dump + ".types", 1500 if rep.tier == "quick" else 40000)
+        for l in opres.get("bad", [])[:5]:
+            found = True
+            rep.violation("input", "the type line of a cast depends on the operand: " + l["what"][:300], l, input_hex=l["input_hex"])
+        if opres.get("broken"):
+            broken.append({"obligation": "harness:explaindump (operand pass)", "detail": opres["broken"]})
         if os.path.exists(dump):
             os.remove(dump)
         dis = re.search(r"disagreements: tokens (\d+), model-vs-code (\d+), CAST-vs-:: (\d+), spec-vs-code on wf trees (\d+), classifier (\d+), script-vs-single (\d+)", out)
@@ -101,10 +110,61 @@ def run(rep):
             "samples": [cov[:500]] + [l[:400] for l in lines if l.startswith("extra classes") or l.startswith("script pass") or l.startswith("tree cases") or l.startswith("mutants")],
             "script_pass": {"cases": int(sc.group(1)) if sc else 0, "statements": int(sc.group(2)) if sc else 0, "parse_calls": int(sc.group(3)) if sc else 0, "differences": nums[5] if nums else None},
             "summary": [l for l in lines if l.startswith("disagreements") or l.startswith("RESULT")],
+            "operand_pass": {k: v for k, v in opres.items() if k != "bad"},
             "trusted_base": TRUSTED,
         })
     verif.report_broken(rep, broken, found)
     rep.assumptions = ["Tuple(date LineString) — an element name that is itself a known type name followed by a type name outside the table — is outside wf_ty (still a parse error)"]
+
+
+OPERANDS = ["[y, 1]", "(now(), 1)", "[1, 2]", "'s'", "1", "f(x)", "(x)", "[1::Int8, 2]", "NULL", "x.y", "[[y]]", "(1, 'a')", "[]", "t.1", "x[1]"]
+
+
+def operand_pass(rep, dump, limit):
+    import subprocess
+    if not os.path.exists(dump):
+        return {"types": 0}
+    allt = open(dump).read().split()
+    os.remove(dump)
+    step = max(1, len(allt) // limit)
+    types = [bytes.fromhex(h) for h in allt[::step] if len(h) < 4000][:limit]
+    verif.build_go(("explaindump",))
+    lines, meta = [], []
+    for i, t in enumerate(types):
+        op = OPERANDS[i % len(OPERANDS)].encode()
+        for form, sql in (("x-as", b"SELECT CAST(x AS " + t + b")"), ("op-as", b"SELECT CAST(" + op + b" AS " + t + b")"), ("op-::", b"SELECT " + op + b"::" + t)):
+            lines.append(sql.hex())
+            meta.append((i, form, sql))
+    p = subprocess.run([os.path.join(verif.BUILD, "explaindump"), "-v"], input=("\n".join(lines) + "\n").encode(), stdout=subprocess.PIPE, stderr=subprocess.PIPE)
+    if p.returncode != 0:
+        return {"types": len(types), "broken": p.stderr.decode("utf-8", "replace")[-400:]}
+    got = {}
+    for l in p.stdout.decode().splitlines():
+        f = l.split("\t")
+        if len(f) >= 2 and f[0] not in got:
+            got[f[0]] = f[-1]
+    bad, compared = [], 0
+    for k in range(0, len(meta), 3):
+        base = got.get(lines[k])
+        if base in (None, "ERR", "PANIC", "PARSEPANIC"):
+            continue
+        try:
+            want = bytes.fromhex(base).decode("utf-8", "replace").rstrip("\n").split("\n")[-1].strip()
+        except ValueError:
+            continue
+        for j in (1, 2):
+            r = got.get(lines[k + j])
+            if r in (None, "ERR"):
+                continue        # this operand is not accepted in front of this type: nothing to compare
+            i, form, sql = meta[k + j]
+            if r in ("PANIC", "PARSEPANIC"):
+                bad.append({"what": "%s on %s" % (r, sql.decode("utf-8", "replace")[:200]), "input_hex": sql.hex()})
+                continue
+            last = bytes.fromhex(r).decode("utf-8", "replace").rstrip("\n").split("\n")[-1].strip()
+            compared += 1
+            if last != want:
+                bad.append({"what": "%s prints the type line %s, CAST(x AS T) prints %s" % (sql.decode("utf-8", "replace")[:160], last[:120], want[:120]), "input_hex": sql.hex()})
+    return {"types": len(types), "compared": compared, "differences": len(bad), "bad": bad}
 
 
 def replay(rec):
